@@ -54,8 +54,8 @@ Print Assumptions C04_delete_only_after_verify.
    found every shank's ap.bin complete (bit-identical content). *)
 Theorem C04_check_completed_sound : forall l fs rs',
   exec l (mkR fs false) = (rs', None) -> r_checked rs' = true ->
-  exists l1 m l2 rsv, l = l1 ++ SVerify m :: l2 /\ exec l1 (mkR fs false) = (rsv, None) /\
-    forall k, (k < m)%nat -> r_fs rsv (PFile (Shank k Ap) FBin) = Complete.
+  exists l1 v l2 rsv, l = l1 ++ v :: l2 /\ is_sverify v = true /\ exec l1 (mkR fs false) = (rsv, None) /\
+    forall k, (k < verify_n v)%nat -> r_fs rsv (PFile (Shank k Ap) FBin) = Complete.
 Proof. intros l fs rs'. exact (check_completed_sound l (mkR fs false) rs' eq_refl). Qed.
 Print Assumptions C04_check_completed_sound.
 
@@ -103,12 +103,12 @@ Print Assumptions C04_split_input_noop.
 Theorem C04_rerun_noop : forall kd n w fs r,
   (kd = NP24 /\ (1 <= n)%nat /\ (forall k, (k < n)%nat -> fs (PDir k) <> Absent)) \/
   (kd = NP21 /\ (fs (PFile Lf21 FBin) <> Absent \/ fs (PFile Lf21 FCbin) <> Absent)) ->
-  r_ow r = false -> (r_target r = TBin \/ r_target r = TCbin) ->
+  r_ow r = false -> r_sub r = None -> (r_target r = TBin \/ r_target r = TCbin) ->
   input_state kd n fs (r_target r) = Present ->
   run_once kd n w fs r = mkOut fs (Status 0) false 1 false [].
 Proof.
-  intros kd n w fs r [[-> [Hn Hd]] | [-> Hd]] How Ht Hin.
-  - exact (rerun_noop24 n w fs r Hn Hd How Ht Hin).
+  intros kd n w fs r [[-> [Hn Hd]] | [-> Hd]] How Hsub Ht Hin.
+  - exact (rerun_noop24 n w fs r Hn Hd How Hsub Ht Hin).
   - exact (rerun_noop21 n w fs r Hd How Ht Hin).
 Qed.
 Print Assumptions C04_rerun_noop.
@@ -116,16 +116,16 @@ Print Assumptions C04_rerun_noop.
 (* After a complete NP2.4 run (status 1, from any directory, any options) every
    shank folder exists — so the next run without overwrite is the no-op above. *)
 Theorem C04_complete_run_then_rerun_noop : forall n w fs r r2,
-  (1 <= n)%nat -> (r_target r = TBin \/ r_target r = TCbin) ->
+  (1 <= n)%nat -> r_sub r = None -> (r_target r = TBin \/ r_target r = TCbin) ->
   out_outcome (run_once NP24 n w fs r) = Status 1 ->
   let fs1 := out_fs (run_once NP24 n w fs r) in
-  r_ow r2 = false -> (r_target r2 = TBin \/ r_target r2 = TCbin) ->
+  r_ow r2 = false -> r_sub r2 = None -> (r_target r2 = TBin \/ r_target r2 = TCbin) ->
   input_state NP24 n fs1 (r_target r2) = Present ->
   run_once NP24 n w fs1 r2 = mkOut fs1 (Status 0) false 1 false [].
 Proof.
-  intros n w fs r r2 Hn Ht H1 fs1 How Ht2 Hin.
+  intros n w fs r r2 Hn Hs Ht H1 fs1 How Hs2 Ht2 Hin.
   apply rerun_noop24; auto. intros k Hk. unfold fs1.
-  rewrite (complete24_dirs n w fs r Ht H1 k Hk). discriminate.
+  rewrite (complete24_dirs n w fs r Hs Ht H1 k Hk). discriminate.
 Qed.
 Print Assumptions C04_complete_run_then_rerun_noop.
 
@@ -139,7 +139,7 @@ Print Assumptions C04_complete_run_then_rerun_noop.
    otherwise untouched. *)
 Theorem C04_forced_rerun_completes_np24 : forall n w' fs t o,
   (t = TBin \/ t = TCbin) -> input_state NP24 n fs t = Present ->
-  let out := run_once NP24 n (S w') fs (mkRun t o true None None) in
+  let out := run_once NP24 n (S w') fs (mkRun t o true None None None) in
   let tf := target_form t in
   out_outcome out = Status 1 /\ out_checked out = o_post o /\
   (forall k, (k < n)%nat ->
@@ -156,7 +156,7 @@ Print Assumptions C04_forced_rerun_completes_np24.
    the .bin removed; otherwise it is untouched. *)
 Theorem C04_forced_rerun_completes_np21 : forall n w' fs t o,
   (t = TBin \/ t = TCbin) -> input_state NP21 n fs t = Present ->
-  let out := run_once NP21 n (S w') fs (mkRun t o true None None) in
+  let out := run_once NP21 n (S w') fs (mkRun t o true None None None) in
   out_outcome out = Status 1 /\
   out_fs out (PFile Lf21 FMeta) = Complete /\ out_ok (o_comp o) (out_fs out) Lf21 /\
   (if o_comp o && fkind_eqb (target_form t) FBin then out_ok true (out_fs out) Orig
@@ -171,15 +171,51 @@ Print Assumptions C04_forced_rerun_completes_np21.
 Theorem C04_rerun_after_interrupted_prepare_refuted :
   exists fs r, let o := run_once NP24 4 2 fs r in
     fs = state_after NP24 4 2 (init_fs false)
-           [mkRun TBin (mkO true false true) false (Some 1%nat) None] /\
+           [mkRun TBin (mkO true false true) false (Some 1%nat) None None] /\
     r_ow r = false /\ r_crash r = None /\
     out_outcome o = Status 0 /\ fs (PDir 1) = Absent /\ out_fs o (PDir 1) = Complete /\
     out_fs o (PFile (Shank 1 Ap) FBin) = Partial.
 Proof.
-  eexists. exists (mkRun TBin (mkO true false true) false None None).
+  eexists. exists (mkRun TBin (mkO true false true) false None None None).
   cbv zeta. split; [reflexivity|]. vm_compute. repeat split.
 Qed.
 Print Assumptions C04_rerun_after_interrupted_prepare_refuted.
+
+(* init_params(nshank=sub): a run that writes only the shanks in `sub` (any non-empty duplicate-free
+   subset, any options, interrupted anywhere, from any reachable directory; histories may mix such
+   runs with full ones — they are part of C04_original_recoverable).  If such a run has changed the
+   original at all, delete_original was set, check_completed is set and EVERY shank k < n of the
+   probe has its ap data (.bin or .cbin+.ch) and metadata complete: every channel of the original is
+   present in a complete shank file.  The verification step of the model succeeds iff the shank files
+   in shank_info cover every shank of the probe and each is complete (verify_cover), which is what
+   comparing the reassembled full-width window with the original amounts to. *)
+Theorem C04_subset_run_deletes_only_when_covering : forall n w compressed h sub o ow corrupt tf c rs',
+  let fs := state_after NP24 n w (init_fs compressed) h in
+  sub_ok sub n = true -> (tf = FBin \/ tf = FCbin) -> orig_ok fs ->
+  exec (firstn c (plan24s sub n w o ow corrupt tf fs)) (mkR fs false) = (rs', None) ->
+  r_fs rs' (PFile Orig tf) <> fs (PFile Orig tf) ->
+  o_del o = true /\ r_checked rs' = true /\ shanks_ok n (r_fs rs').
+Proof.
+  intros n w compressed h sub o ow corrupt tf c rs' fs Hok Htf Ho Hx.
+  exact (proj2 (proj2 (proj2 (np24s_prefix sub n w o ow corrupt tf fs c rs' (sub_ok_NoDup _ _ Hok) Htf Ho
+                  (history_inv NP24 n w h _ (init_inv NP24 n compressed)) Hx)))).
+Qed.
+Print Assumptions C04_subset_run_deletes_only_when_covering.
+
+(* the comparison of a subset run succeeds only when the subset is the whole probe *)
+Theorem C04_subset_verification_needs_coverage : forall fs sub n,
+  verify_cover fs sub n = true ->
+  forall k, (k < n)%nat -> In k sub /\
+    fs (PFile (Shank k Ap) FBin) = Complete /\ fs (PFile (Shank k Ap) FMeta) = Complete.
+Proof. exact verify_cover_spec. Qed.
+Print Assumptions C04_subset_verification_needs_coverage.
+
+Example C04_example_subset_run_keeps_original :
+  let o := run_once NP24 4 2 (init_fs false)
+             (mkRun TBin (mkO true true false) false None None (Some [0%nat; 1%nat])) in
+  out_outcome o = Raised EAssertion /\ out_checked o = false /\ out_fs o (PFile Orig FBin) = Complete /\
+  out_fs o (PFile (Shank 1 Ap) FBin) = Complete /\ out_fs o (PDir 2) = Absent.
+Proof. vm_compute. repeat split. Qed.
 
 (* ---- ONE converter object, several method calls (process / check_NP24 / delete_NP24 /
    assignment of the option attributes), exceptions caught in between; code after 899cbec
@@ -190,34 +226,37 @@ Print Assumptions C04_rerun_after_interrupted_prepare_refuted.
 (* The original is recoverable in every reachable state of every method-call sequence on one
    object: NP2.4, any reachable directory, any options (also changed between calls), any number of
    process() / check_NP24() / delete_NP24() calls in any order, each interrupted anywhere or not,
-   process() also with a shank file damaged before its verification.  (An interrupted call is a
+   process() also with a shank file damaged before its verification, the object restricted to any
+   subset of the shanks by init_params(nshank=sub) or not.  (An interrupted call is a
    call, so intermediate states are covered.  The model's adversary may not act inside a direct
    check_NP24(): it could destroy the only copy after the original is gone.)  And, second half:
    whenever check_completed is true, every shank's ap data (.bin, or .cbin+.ch) and metadata are
    complete on disk AT THAT MOMENT — the flag can no longer be stale. *)
-Theorem C04_object_all_call_sequences_safe : forall n w compressed h o (c : bool) cs,
+Theorem C04_object_all_call_sequences_safe : forall n w compressed h o (c : bool) sub cs,
   let fs := state_after NP24 n w (init_fs compressed) h in
   input_state NP24 n fs (if c then TCbin else TBin) = Present ->
   forallb admissible cs = true ->
-  let ob' := fst (obj_after NP24 n w (new_obj o c) fs cs) in
-  let fs' := snd (obj_after NP24 n w (new_obj o c) fs cs) in
+  let ob' := fst (obj_after NP24 n w (new_obj_sub o c sub) fs cs) in
+  let fs' := snd (obj_after NP24 n w (new_obj_sub o c sub) fs cs) in
   fs' (PFile Orig FMeta) = Complete /\ (orig_ok fs' \/ shanks_ok n fs') /\
   (ob_checked ob' = true -> shanks_ok n fs').
 Proof.
-  intros n w compressed h o c cs fs Hin Hall ob' fs'.
+  intros n w compressed h o c sub cs fs Hin Hall ob' fs'.
   pose proof (history_inv NP24 n w h _ (init_inv NP24 n compressed)) as Hinv.
-  destruct (objI_seq n w cs (new_obj o c) fs Hall (new_obj_I n fs o c Hinv Hin))
+  destruct (objI_seq n w cs (new_obj_sub o c sub) fs Hall (new_obj_I n fs o c sub Hinv Hin))
     as [_ [[A [_ [B | [_ B]]]] [K _]]]; auto.
 Qed.
 Print Assumptions C04_object_all_call_sequences_safe.
 
 (* check_completed true after an NP2.4 process() call that ran  ==>  a check_NP24 step of THIS call
    found every shank ap.bin complete (the call clears the flag before _prepare_files_NP24). *)
-Theorem C04_object_check_completed_is_fresh : forall n w ob fs ow cr cp ob' o,
+Theorem C04_object_check_completed_is_fresh : forall n w ob fs ow cr cp ob' o plan st al,
   fs (PFile Orig (ob_tf ob)) <> Absent ->
+  call_plan NP24 n w ob fs (CProcess ow cr cp) = Some (plan, st, al) ->
   obj_call NP24 n w ob fs (CProcess ow cr cp) = (ob', o) -> ob_checked ob' = true ->
-  exists l1 m l2 rsv, out_trace o = l1 ++ SVerify m :: l2 /\ exec l1 (mkR fs false) = (rsv, None) /\
-    forall k, (k < m)%nat -> r_fs rsv (PFile (Shank k Ap) FBin) = Complete.
+  exists l1 v l2 rsv, out_trace o = l1 ++ v :: l2 /\ is_sverify v = true /\ verify_n v = n /\
+    exec l1 (mkR fs false) = (rsv, None) /\
+    forall k, (k < n)%nat -> r_fs rsv (PFile (Shank k Ap) FBin) = Complete.
 Proof. exact process_flag_from_this_call. Qed.
 Print Assumptions C04_object_check_completed_is_fresh.
 
@@ -269,13 +308,13 @@ Proof. vm_compute. repeat split. Qed.
    compressed, check_completed set; the same history interrupted just before
    delete_NP24 keeps the original. *)
 Example C04_example_full_run :
-  let o := run_once NP24 2 2 (init_fs false) (mkRun TBin (mkO true true true) false None None) in
+  let o := run_once NP24 2 2 (init_fs false) (mkRun TBin (mkO true true true) false None None None) in
   out_outcome o = Status 1 /\ out_checked o = true /\ out_fs o (PFile Orig FBin) = Absent /\
   out_fs o (PFile (Shank 1 Ap) FCbin) = Complete /\ out_fs o (PFile (Shank 1 Ap) FBin) = Absent /\
   length (out_trace o) = 37%nat.
 Proof. vm_compute. repeat split. Qed.
 
 Example C04_example_crash_before_delete :
-  let o := run_once NP24 2 2 (init_fs false) (mkRun TBin (mkO true true true) false (Some 36%nat) None) in
+  let o := run_once NP24 2 2 (init_fs false) (mkRun TBin (mkO true true true) false (Some 36%nat) None None) in
   out_outcome o = Raised ECrash /\ out_checked o = true /\ out_fs o (PFile Orig FBin) = Complete.
 Proof. vm_compute. repeat split. Qed.
